@@ -82,6 +82,10 @@ CLAIMED = {
          "Props/C13.v: C13_explicit_outputs, C13_join_components, C13_default_outputs, C13_suffix_defaults (+ computed examples for combine / chk2plt / mandoline defaults). Every tool is run in-process from another working directory with inputs/outputs spelled relative, './', trailing '/', '//', absolute; an audit hook records every open-for-write / mkdir / rename / remove / rmtree; inputs are snapshotted (content, mtime, mode) before and after; default output locations are predicted by the extracted path model; failing invocations (unknown field, truncated binary file) must raise; an OSError is injected at sampled (quick) or all (thorough) write-class operations and write() calls: the tool must raise (or complete with the identical output when the library retried), inputs unchanged, writes confined to the output location.",
          "the kernel's file system, symbolic links and '..' are outside the model; defaults of combine / chk2plt / mandoline are modelled and checked against the runs but proved only by computed examples; mandoline image output is not exercised (matplotlib); seven defects repaired by fix: commits.",
          "DESIGN.md section 3 C13"),
+ 'C16': ("Coq proof (every written box holds its own level's two bracketing planes and is the in-plane footprint of a box near the plane; exact affine / constant identities; ceiling-division file distribution writes every box exactly once within the file budget) + byte-for-byte reconstruction of the written Cell_D files and independent 2D reader, with two recorded known findings",
+         "Props/C16.v: C16_own_level_partial, C16_affine_exact, C16_constant_normal, C16_chunking (+ refutation of the pinned floor division, + the one-sided witness). Mandoline.slice(fformat='plotfile') is run on generated 3D plotfiles (incl. slices above the one-megabyte threshold with 9 and 16 boxes); the 2D plotfile is parsed by the independent reader (fields, time, in-plane geometry, footprints of the met boxes each once, values = own-level interpolation bit for bit, min/max, taste with box coordinates) and the Cell_D files are rebuilt byte for byte from the extracted model. Inputs in the two known-finding regions (plane within half a cell of a box face; selected level without a box near the plane) are reported as KNOWN-FINDING, any other failure as VIOLATION.",
+         "partial: the full property is false of the code in the two known-finding regions (KNOWN_FINDINGS.txt); positions on the dx/8 lattice; float interpolation by numpy; two defects repaired by fix: commits (aliased arrays, chunking).",
+         "DESIGN.md section 3 C16"),
 }
 PENDING_REASON = "check not built yet in this round (model and theorems planned in DESIGN.md section 3); not claimed until its check runs"
 
